@@ -23,7 +23,7 @@ container_value_len (fixed by 51c799c) and the nesting underflow of TLVSequenceT
 (d) writer half, structural part only: in TLVWrite::{i16,i32,i64,u16,u32,u64} the cast of `data` to the narrower type is cut by `data <= narrow::MAX`
 and (signed) `data >= narrow::MIN` comparisons on `data` itself, and each method's full-width arm writes the TLVValueType of its own width.
 """
-CLAUSES = ['a: reader panic surface discharged', 'b: loops advance through the input', 'c: returned slices are bounds-checked sub-slices of the input', 'd: writer narrows integers only inside the narrow range; value-type table']
+CLAUSES = ['a: reader panic surface discharged', 'b: loops advance through the input', 'c: returned slices are bounds-checked sub-slices of the input', 'd: writer narrows integers only inside the narrow range; value-type table; re-encoding keeps the source width; the iterator encoder walks nested containers completely']
 NOT_DECIDED = ['decode(encode(v)) == v and re-encoding stability', 'u64 -> usize truncation of lengths on 32-bit targets (noted, not alarmed)']
 MIN_OBLIGATIONS = {'q': 25, 'd': 25, 'r': 25}
 HERE = os.path.dirname(os.path.abspath(__file__))
